@@ -14,16 +14,24 @@ import (
 	"verif/harness/internal/vlib"
 )
 
-// probe is the instrumented prompter. One atomic counter issues tickets for
-// entries, exits and (drawn by the driver) the return of UnregisterPrompter,
-// so these events are totally ordered without reference to time.
+// probe is the instrumented prompter of one registration. One atomic counter
+// per case issues tickets for entries, exits and (drawn by the driver) the
+// return of UnregisterPrompter, so these events are totally ordered without
+// reference to time - across all prompters of the case.
 type probe struct {
-	ticket   atomic.Int64
+	ticket   *atomic.Int64
 	inflight atomic.Int32
 	delays   []int // microseconds spent inside, cycled
 	n        atomic.Int64
 	mu       sync.Mutex
 	invs     []map[string]any
+	unreg    atomic.Int64 // ticket drawn right after UnregisterPrompter returned; -1: none
+}
+
+func newProbe(ticket *atomic.Int64, delays []int) *probe {
+	p := &probe{ticket: ticket, delays: delays}
+	p.unreg.Store(-1)
+	return p
 }
 
 func (p *probe) enter(kind, text string) {
@@ -54,37 +62,39 @@ func (p *probe) Prompt(m string) (string, error) {
 }
 
 type pcase struct {
-	ID      string `json:"id"`
-	Callers int    `json:"callers"`
-	Calls   int    `json:"calls"`
-	Kinds   int64  `json:"kinds"`   // seed of the per-caller Message/Prompt choice
-	Delays  []int  `json:"delays"`  // microseconds inside the prompter
-	After   int    `json:"after"`   // unregister once this many tickets were drawn ...
-	AfterUs int    `json:"afterus"` // ... or after this many microseconds, whichever comes first
+	ID        string `json:"id"`
+	Prompters int    `json:"prompters"` // identifiers registered side by side
+	Reuse     bool   `json:"reuse"`     // after unregistration the same identifier is registered again with a new prompter
+	Callers   int    `json:"callers"`
+	Calls     int    `json:"calls"`
+	Kinds     int64  `json:"kinds"`   // seed of the per-caller Message/Prompt and identifier choice
+	Delays    []int  `json:"delays"`  // microseconds inside the prompter
+	After     int    `json:"after"`   // unregister once this many tickets were drawn ...
+	AfterUs   int    `json:"afterus"` // ... or after this many microseconds, whichever comes first
 }
 
 var pcaseSerial atomic.Int64
 
 const promptingWatchdog = 10 * time.Second
 
+// registryCase: Prompters identifiers, each registered with its own probe;
+// Callers goroutines call Message/Prompt on randomly chosen identifiers; one
+// goroutine per identifier unregisters it (and, with Reuse, registers the same
+// identifier again with a fresh probe, tries a colliding registration, and
+// unregisters that one later). No registry call is made on the calling
+// goroutine of this function: everything runs under the case watchdog.
 func registryCase(pc pcase) map[string]any {
-	p := &probe{delays: pc.Delays}
-	id := fmt.Sprintf("%s-%d", pc.ID, pcaseSerial.Add(1))
+	if pc.Prompters < 1 {
+		pc.Prompters = 1
+	}
+	serial := pcaseSerial.Add(1)
 	k := newClock()
+	var ticket atomic.Int64
 	var mu sync.Mutex
 	panics := []string{}
 	results := map[string]int{}
-	// no registry call is made on this goroutine: registration too runs under the watchdog
-	var regErr error
-	regDone := make(chan struct{})
-	go func() { regErr = prompting.RegisterPrompterWithIdentifier(id, p); close(regDone) }()
-	if !waitOrTimeout(regDone, promptingWatchdog) {
-		return map[string]any{"ev": "RegistryCase", "invs": []map[string]any{}, "unreg": map[string]any{"ticket": int64(-1)},
-			"panics": panics, "results": map[string]any{}, "hung": true, "elapsed": k.us()}
-	}
-	if regErr != nil {
-		vlib.Fatal("register: %v", regErr)
-	}
+	gens := [][]*probe{} // per identifier: its successive registrations
+	ids := []string{}
 	note := func(what string) { mu.Lock(); results[what]++; mu.Unlock() }
 	guarded := func(f func()) {
 		defer func() {
@@ -96,6 +106,47 @@ func registryCase(pc pcase) map[string]any {
 		}()
 		f()
 	}
+	finish := func(hung bool) map[string]any {
+		mu.Lock()
+		defer mu.Unlock()
+		out := []map[string]any{}
+		for j, ps := range gens {
+			for g, p := range ps {
+				p.mu.Lock()
+				invs := append([]map[string]any{}, p.invs...)
+				p.mu.Unlock()
+				out = append(out, map[string]any{"p": j, "gen": g, "invs": invs, "unreg": map[string]any{"ticket": p.unreg.Load()}})
+			}
+		}
+		res := map[string]any{}
+		for k, v := range results {
+			res[k] = v
+		}
+		return map[string]any{"ev": "RegistryCase", "gens": out, "panics": append([]string{}, panics...),
+			"results": res, "hung": hung, "elapsed": k.us()}
+	}
+
+	for j := 0; j < pc.Prompters; j++ {
+		ids = append(ids, fmt.Sprintf("%s-%d-p%d", pc.ID, serial, j))
+		gens = append(gens, []*probe{newProbe(&ticket, pc.Delays)})
+	}
+	var regErr error
+	regDone := make(chan struct{})
+	go func() {
+		defer close(regDone)
+		for j := range ids {
+			if err := prompting.RegisterPrompterWithIdentifier(ids[j], gens[j][0]); err != nil {
+				regErr = err
+			}
+		}
+	}()
+	if !waitOrTimeout(regDone, promptingWatchdog) {
+		return finish(true)
+	}
+	if regErr != nil {
+		vlib.Fatal("register: %v", regErr)
+	}
+
 	start := make(chan struct{})
 	var wg sync.WaitGroup
 	for ci := 0; ci < pc.Callers; ci++ {
@@ -106,6 +157,7 @@ func registryCase(pc pcase) map[string]any {
 			<-start
 			for n := 0; n < pc.Calls; n++ {
 				text := fmt.Sprintf("c%d.%d", ci, n)
+				id := ids[r.Intn(len(ids))]
 				guarded(func() {
 					var err error
 					if r.Intn(2) == 0 {
@@ -122,37 +174,61 @@ func registryCase(pc pcase) map[string]any {
 			}
 		}(ci)
 	}
-	unregTicket := int64(-1)
-	unregDone := make(chan struct{})
-	go func() {
-		defer close(unregDone)
-		<-start
-		deadline := time.Now().Add(time.Duration(pc.AfterUs) * time.Microsecond)
-		for p.ticket.Load() < int64(pc.After) && time.Now().Before(deadline) {
-			runtime.Gosched()
-		}
-		guarded(func() {
-			prompting.UnregisterPrompter(id)
-			atomic.StoreInt64(&unregTicket, p.ticket.Add(1))
-		})
-	}()
+	for j := range ids {
+		wg.Add(1)
+		go func(j int) {
+			defer wg.Done()
+			<-start
+			// staggered: identifier j goes when (j+1)/Prompters of the budget is used up
+			after := int64(pc.After * (j + 1) / len(ids))
+			deadline := time.Now().Add(time.Duration(pc.AfterUs*(j+1)/len(ids)) * time.Microsecond)
+			for ticket.Load() < after && time.Now().Before(deadline) {
+				runtime.Gosched()
+			}
+			first := gens[j][0]
+			guarded(func() {
+				prompting.UnregisterPrompter(ids[j])
+				first.unreg.Store(ticket.Add(1))
+			})
+			if !pc.Reuse || first.unreg.Load() < 0 {
+				return
+			}
+			second := newProbe(&ticket, pc.Delays)
+			ok := false
+			guarded(func() {
+				if err := prompting.RegisterPrompterWithIdentifier(ids[j], second); err != nil {
+					note("reregister: " + asciiOnly(err.Error()))
+					return
+				}
+				ok = true
+				mu.Lock()
+				gens[j] = append(gens[j], second)
+				mu.Unlock()
+				// a second registration under a live identifier must be refused
+				if err := prompting.RegisterPrompterWithIdentifier(ids[j], newProbe(&ticket, pc.Delays)); err != nil {
+					note("collision refused")
+				} else {
+					note("collision accepted")
+				}
+			})
+			if !ok {
+				return
+			}
+			deadline = time.Now().Add(time.Duration(pc.AfterUs) * time.Microsecond)
+			for ticket.Load() < after+int64(pc.After) && time.Now().Before(deadline) {
+				runtime.Gosched()
+			}
+			guarded(func() {
+				prompting.UnregisterPrompter(ids[j])
+				second.unreg.Store(ticket.Add(1))
+			})
+		}(j)
+	}
 	close(start)
 	all := make(chan struct{})
-	go func() { wg.Wait(); <-unregDone; close(all) }()
+	go func() { wg.Wait(); close(all) }()
 	hung := !waitOrTimeout(all, promptingWatchdog)
-	elapsed := k.us()
-	p.mu.Lock()
-	invs := append([]map[string]any{}, p.invs...)
-	p.mu.Unlock()
-	mu.Lock()
-	defer mu.Unlock()
-	res := map[string]any{}
-	for k, v := range results {
-		res[k] = v
-	}
-	return map[string]any{"ev": "RegistryCase", "invs": invs,
-		"unreg":  map[string]any{"ticket": atomic.LoadInt64(&unregTicket)},
-		"panics": append([]string{}, panics...), "results": res, "hung": hung, "elapsed": elapsed}
+	return finish(hung)
 }
 
 func asciiOnly(s string) string {
@@ -168,7 +244,8 @@ func asciiOnly(s string) string {
 }
 
 func genRegistryCase(r *rand.Rand, i int, deep bool) pcase {
-	pc := pcase{ID: fmt.Sprintf("verif-%d", i), Callers: 2 + r.Intn(4), Calls: 2 + r.Intn(6), Kinds: r.Int63n(1 << 40)}
+	pc := pcase{ID: fmt.Sprintf("verif-%d", i), Callers: 2 + r.Intn(4), Calls: 2 + r.Intn(6), Kinds: r.Int63n(1 << 40),
+		Prompters: []int{1, 1, 2, 3}[r.Intn(4)], Reuse: r.Intn(2) == 0}
 	if deep {
 		pc.Callers = 2 + r.Intn(7)
 		pc.Calls = 2 + r.Intn(12)
@@ -253,9 +330,12 @@ func emitRegistryCase(c *vlib.Ctx, cid int, pc pcase, rec map[string]any) {
 	c.Emit(rec)
 	c.Eval()
 	c.TraceDone()
-	// non-trivial: the prompter was invoked and the unregistration returned
-	if len(rec["invs"].([]map[string]any)) > 0 && rec["unreg"].(map[string]any)["ticket"].(int64) >= 0 {
-		c.NonTrivial(hashOf(pc))
+	// non-trivial: some registration was invoked and its unregistration returned
+	for _, g := range rec["gens"].([]map[string]any) {
+		if len(g["invs"].([]map[string]any)) > 0 && g["unreg"].(map[string]any)["ticket"].(int64) >= 0 {
+			c.NonTrivial(hashOf(pc))
+			break
+		}
 	}
 	if rec["hung"] == true {
 		c.AddExtra("hung_cases", 1)
